@@ -165,27 +165,60 @@ def llist(xs, indent="  ") -> str:
 
 
 def render(t) -> str:
+    # String comparison is prohibitively slow in the Lean kernel (~ms .. 0.5 s per operation), so
+    # every name is interned: id = position in the sorted name table; the tables hold ids and a
+    # trailing comment with the name for the human reader.
+    allnames = set()
+    for k, _ in t["saver"] + t["loader"]:
+        allnames.add(k)
+    for k, v in t["patches"]:
+        allnames.add(k)
+        allnames.add(v)
+    for k, _, _ in t["classes"]:
+        allnames.add(k)
+    for k, _ in t["importable"]:
+        allnames.add(k)
+    names = sorted(allnames)
+    ident = {n: i for i, n in enumerate(names)}
+
+    def rows(items):
+        items = list(items)
+        if not items:
+            return "[]"
+        out = []
+        for i, (code, comment) in enumerate(items):
+            sep = "," if i + 1 < len(items) else "]"
+            out.append("  %s%s  -- %s" % (code, sep, comment))
+        return "[\n" + "\n".join(out)
+
     L = []
-    L.append("/-! GENERATED by harness/translate/c12.py from the glue tree under test — do not edit. -/")
+    L.append("/-! GENERATED by harness/translate/c12.py from the glue tree under test — do not edit.")
+    L.append("Names are interned: id = position in `names`. -/")
     L.append("namespace GlueVerif.Generated.C12")
+    L.append("")
+    L.append("/-- id ↦ (name, name.startsWith \"glue.\") -/")
+    L.append("def names : List (String × Bool) := %s" % rows(
+        ("(%s, %s)" % (lstr(n), lbool(n.startswith("glue."))), "id %d" % i) for i, n in enumerate(names)))
     L.append("")
     for name, key in (("saverTable", "saver"), ("loaderTable", "loader")):
         L.append("/-- `%s.dispatch._data`: type ↦ stored version keys, in dict order. -/" % ("GlueSerializer" if key == "saver" else "GlueUnSerializer"))
-        L.append("def %s : List (String × List Int) := %s" % (
-            name, llist("(%s, [%s])" % (lstr(k), ", ".join(lver(v) for v in vs)) for k, vs in t[key])))
+        L.append("def %s : List (Nat × List Int) := %s" % (
+            name, rows(("(%d, [%s])" % (ident[k], ", ".join(lver(v) for v in vs)), k) for k, vs in t[key])))
         L.append("")
     L.append("/-- `glue.core.state.PATH_PATCHES` items (old name, new name). -/")
-    L.append("def patches : List (String × String) := %s" % llist("(%s, %s)" % (lstr(k), lstr(v)) for k, v in t["patches"]))
+    L.append("def patches : List (Nat × Nat) := %s" % rows(
+        ("(%d, %d)" % (ident[k], ident[v]), "%s -> %s" % (k, v)) for k, v in t["patches"]))
     L.append("")
     L.append("/-- number of ` -> ` lines in state_path_patches.txt -/")
     L.append("def patchFileLines : Nat := %d" % t["patch_file_lines"])
     L.append("")
     L.append("/-- classes defined by the package: (written `_type` name, concrete, written by a saver). -/")
-    L.append("def liveClasses : List (String × Bool × Bool) := %s" % llist(
-        "(%s, %s, %s)" % (lstr(k), lbool(c), lbool(w)) for k, c, w in t["classes"]))
+    L.append("def liveClasses : List (Nat × Bool × Bool) := %s" % rows(
+        ("(%d, %s, %s)" % (ident[k], lbool(c), lbool(w)), k) for k, c, w in t["classes"]))
     L.append("")
     L.append("/-- patch targets inside `glue.`: does `lookup_class` find them (un-patched)? -/")
-    L.append("def importable : List (String × Bool) := %s" % llist("(%s, %s)" % (lstr(k), lbool(b)) for k, b in t["importable"]))
+    L.append("def importable : List (Nat × Bool) := %s" % rows(
+        ("(%d, %s)" % (ident[k], lbool(b)), k) for k, b in t["importable"]))
     L.append("")
     L.append("/-- modules of the package that could not be imported in this environment (their classes are not in `liveClasses`). -/")
     L.append("def failedImports : List String := %s" % llist(lstr(m) for m, _ in t["failed_imports"]))
